@@ -630,6 +630,7 @@ struct SolverEngine: Engine{
     Run* run=new Run();
     run->c.out=&out; run->c.tr=&tr; run->c.ctr=&ctr; run->plan=&plan; run->trace_ops=verbose||plan["trace_ops"].as_bool(false);
     run->prop=plan["property"].as_str("C04");
+    run->c.prop_default=run->prop;
     run->c.log.reserve(8192);
     g_ctx=&run->c;
     AllocCfg cfg; const Json& a=plan["alloc"];
@@ -668,6 +669,7 @@ struct SolverEngine: Engine{
       if(n>0){ char b[200]; snprintf(b,sizeof b,"%d block(s) still allocated after the solver was destroyed, the cache emptied and the thread ended; first: #%ld, %zu bytes (%s), allocated in op#%d",n,bi[0].id,bi[0].size,bi[0].live==2?"C allocator":"operator new",bi[0].tag);
         out.fail("ledger:leak",bi[0].live==2?"c-allocator":"operator-new",b); out.prop="C15"; }
     }
+    if(out.ok && run->c.have_foreign){ out.fail(run->c.f_cls,run->c.f_sig,run->c.f_detail); out.prop=run->c.f_prop; }
     AllocStats st=alloc_stats();
     ctr.add("alloc_cxx",st.cxx_allocs); ctr.add("alloc_c",st.c_allocs); ctr.add("alloc_reused_address",st.reused); ctr.add("alloc_c_reused_address",st.c_reused);
     alloc_run_end();
